@@ -503,6 +503,13 @@ def model_outcome(answer):
 # endregion
 
 
+def corr_fail(ctx, what, case):
+	"""the failure list of a run is bounded: correspondence failures must not crowd out failing inputs of the property"""
+	ctx.count('failures:corr')
+	if not hasattr(ctx, 'counters') or ctx.counters['failures:corr'] <= 10:
+		ctx.fail('corr', what, case)
+
+
 def run_case(ctx, impl, case, number):
 	"""One graph in one configuration and mode. case: dict(graph, config, mode, options)."""
 	# pylint: disable=too-many-locals,too-many-branches,too-many-statements
@@ -523,7 +530,7 @@ def run_case(ctx, impl, case, number):
 	if ctx.driver:
 		model = model_outcome(ctx.driver.ask(fs_request(graph)))
 		if ('ok' == spec[0] and model != spec) or ('err' == spec[0] and model[:3] != spec):
-			ctx.fail('corr', f'model and harness oracle differ on {fs_request(graph)}: model {model}, oracle {spec}', case)
+			corr_fail(ctx, f'model and harness oracle differ on {fs_request(graph)}: model {model}, oracle {spec}', case)
 	share = 0 != number % 10
 	sample = {'shape': graph['shape'], 'request': fs_request(graph), 'config': config, 'mode': mode, 'spec': spec}
 	ctx.count(f'shape:{graph["shape"]}')
@@ -567,7 +574,7 @@ def run_case(ctx, impl, case, number):
 		if observed != expected:
 			report(observed, expected, project, 'parse(root) is not the depth-first import-order traversal with each file once')
 		elif model is not None and 'ok' == spec[0] and model != observed:
-			ctx.fail('corr', f'model and implementation differ on {fs_request(graph)}: model {model}, implementation {observed}', case)
+			corr_fail(ctx, f'model and implementation differ on {fs_request(graph)}: model {model}, implementation {observed}', case)
 		# the "processing ..." lines are the processed files in order
 		if 'ok' == result[0]:
 			ctx.expect(result[3].count('processing') == len(result[2]), 'corr', 'one "processing" line per processed file expected', case)
@@ -624,9 +631,9 @@ def run_case(ctx, impl, case, number):
 		pre, post = validity(graph, spec[1]) if 'ok' == spec[0] else (True, True)
 		answer = ctx.driver.ask(f'exit {int("ok" == spec[0])} {int(pre)} 1 {int(post)} {int(generation_ok)}')
 		if answer.split(' ')[0] != str(want_status):
-			ctx.fail('corr', f'model exit status {answer} differs from the oracle {want_status}', case)
+			corr_fail(ctx, f'model exit status {answer} differs from the oracle {want_status}', case)
 		elif observed == expected and answer.split(' ')[0] != str(status):
-			ctx.fail('corr', f'model exit status {answer} differs from the implementation {status}', case)
+			corr_fail(ctx, f'model exit status {answer} differs from the implementation {status}', case)
 	case['_written'] = written
 
 
